@@ -345,6 +345,11 @@ func runC10(ctx *common.Ctx) error {
 		{"t STORE 1 +FLAGS.SILENT (\\Seen foo)\r\n", "t", `(store ((1 1)) add 1 ("\\Seen" "foo"))`},
 		{"t store 2:4 flags \\Deleted\r\n", "t", `(store ((2 4)) set 0 ("\\Deleted"))`},
 		{"t STORE * -FLAGS ()\r\n", "t", `(store ((0 0)) rem 0 ())`},
+		{"t STORE 1 +FLAGS (Recent)\r\n", "t", `(store ((1 1)) add 0 ("Recent"))`},
+		{"t store 1 flags recent SEEN deleted\r\n", "t", `(store ((1 1)) set 0 ("recent" "SEEN" "deleted"))`},
+		{"t UID STORE 1 -FLAGS.SILENT (RECENT \\Seen rEcEnT)\r\n", "t", `(uid (store ((1 1)) rem 1 ("RECENT" "\\Seen" "rEcEnT")))`},
+		{"t APPEND box (recent Draft) {1}\r\nx\r\n", "t", `(append "box" ("recent" "Draft") () "x")`},
+		{"t SEARCH KEYWORD recent UNKEYWORD Seen\r\n", "t", `(search "" ((keyword "recent") (unkeyword "Seen")))`},
 		{"t APPEND box (\\Seen) \" 1-Jan-2020 10:11:12 -0130\" {3}\r\nabc\r\n", "t", `(append "box" ("\\Seen") (2020 1 1 10 11 12 1 5400) "abc")`},
 		{"t APPEND box {2}\r\n\r\n\r\n", "t", `(append "box" () () "\r\n")`},
 		{"t ID (\"name\" \"x\" \"os\" NIL)\r\n", "t", `(idset (("name" "x") ("os" "")))`},
@@ -447,6 +452,15 @@ func runC10(ctx *common.Ctx) error {
 		}
 	}
 
+	// \\Recent (any letter case) must stay refused: no oracle (not a valid command), recorded for the model
+	for _, in := range []string{"t STORE 1 +FLAGS (\\Recent)\r\n", "t STORE 1 FLAGS \\rEcEnT\r\n", "t APPEND box (\\RECENT) {1}\r\nx\r\n", "t STORE 1 FLAGS (\\Recently \\Recen)\r\n"} {
+		obs, crash := parseCounting([]byte(in), 1)
+		if crash == "" {
+			for _, o := range obs {
+				addCase("backslash-recent", []byte(in), o)
+			}
+		}
+	}
 	// ---- 3. mutated / truncated inputs: no oracle (the property speaks about valid commands), model only ----
 	nMut := ctx.Budget(380, 4000)
 	for i := 0; i < nMut && len(pool) > 0; i++ {
